@@ -136,6 +136,7 @@ WRAP:
 			added = true
 			t = time.Date(t.Year(), t.Month(), t.Day(), 0, 0, 0, 0, loc)
 		}
+		prev := t
 		t = t.AddDate(0, 0, 1)
 		// Notice if the hour is no longer midnight due to DST.
 		// Add an hour if it's 23, subtract an hour if it's 1.
@@ -145,6 +146,12 @@ WRAP:
 			} else {
 				t = t.Add(time.Duration(-t.Hour()) * time.Hour)
 			}
+		}
+		// A whole local day can be missing (Pacific/Apia skipped 2011-12-30):
+		// adding a day then normalises back to where we were and the search
+		// would never advance. Step over the gap in absolute time instead.
+		if !t.After(prev) {
+			t = prev.Add(24 * time.Hour)
 		}
 
 		if t.Day() == 1 {
